@@ -225,7 +225,7 @@ theorem escapeText_noCr : ∀ (t : Bytes), ∀ x ∈ escapeText t, x ≠ 13
     · exact escapeTextByte_noCr c x hx
     · exact escapeText_noCr cs x hx
 
-/-! ### `xml/ser.rs::attr_value`: `escape`, then tab, LF and CR as character references (since 1dc4ea8) -/
+/-! ### `xml/ser.rs::attr_value`: `escape`, then tab, LF and CR as character references (since 680006e) -/
 
 theorem replaceRef_append (c : UInt8) (ref : Bytes) : ∀ (a b : Bytes),
     replaceRef c ref (a ++ b) = replaceRef c ref a ++ replaceRef c ref b
